@@ -40,3 +40,4 @@ def run(ctx):
     S.r17_4_no_silent_reject(ctx, 'R08.11')
     from . import c09 as C9
     C9.o3_resolve_vs_construct(ctx, 'R08.10')
+    C9.o3b_pyyaml_scalars(ctx, 'R08.12')
